@@ -394,7 +394,7 @@ func runStorelab(verif, repo string, ps *PropSpec, tier, work string) *storelabR
 		res.N = 5
 	}
 	start := time.Now()
-	ov := map[string]map[string]string{"Replace": {filepath.Join(repo, "database", "zz_storelab_test.go"): filepath.Join(verif, "storelab", "storelab_test.go.txt")}}
+	ov := map[string]map[string]string{"Replace": {filepath.Join(repo, "database", "zz_storelab_test.go"): filepath.Join(verif, "storelab", "storelab_test.go.txt"), filepath.Join(repo, "database", "zz_importlab_test.go"): filepath.Join(verif, "storelab", "importlab_test.go.txt")}}
 	ob, _ := json.Marshal(ov)
 	ovf := filepath.Join(work, "storelab_overlay.json")
 	os.WriteFile(ovf, ob, 0o644)
